@@ -1057,7 +1057,11 @@ func (c *Context) Ln(d, x *Decimal) (Condition, error) {
 		return 0, err
 	}
 	res := c.round(d, &tmp1)
+	// The result is inexact whether or not its last rounding dropped digits.
 	res |= Inexact
+	if res.Subnormal() {
+		res |= Underflow
+	}
 	return c.goError(res)
 }
 
@@ -1089,6 +1093,10 @@ func (c *Context) Log10(d, x *Decimal) (Condition, error) {
 	res |= qr
 	if err != nil {
 		return res, err
+	}
+	// The result is inexact whether or not its last rounding dropped digits.
+	if res.Subnormal() {
+		res |= Underflow
 	}
 	return c.goError(res)
 }
@@ -1401,7 +1409,11 @@ func (c *Context) Pow(d, x, y *Decimal) (Condition, error) {
 	}
 	res |= c.round(d, &tmp)
 	d.Negative = neg
+	// The result is inexact whether or not its last rounding dropped digits.
 	res |= Inexact
+	if res.Subnormal() {
+		res |= Underflow
+	}
 	return c.goError(res)
 }
 
